@@ -75,6 +75,7 @@ type Result struct {
 	Micros   int64    `json:"micros"`
 	Input    int      `json:"input"` // bytes offered to the decoder
 	Flaky    bool     `json:"flaky,omitempty"`
+	Noise    string   `json:"noise,omitempty"` // a non-repeating time-limit hit (set by the parent)
 	Fatal    string   `json:"fatal,omitempty"` // worker died / timed out: set by the parent
 }
 
@@ -125,10 +126,11 @@ func (it Item) label() string {
 }
 
 // HostileClass is the stable abstract description of what is hostile in a
-// scenario: the classes of its last item (and of the length that governs a
-// byte field / the count of a ClassAd). How the input ends (cut, end of message
-// or end of connection) is part of the scenario but not of the class. It never
-// contains a seed or an offset.
+// scenario: the class of its most hostile item (a negative or huge length or
+// count, an over-long value, a secret after the marker, ...), or of its last
+// item if nothing stands out. How the input ends (cut, end of message or end of
+// connection) is part of the scenario but not of the class. It never contains
+// a seed or an offset.
 func (s *Scn) HostileClass() string {
 	n := len(s.Items)
 	switch s.Fam {
@@ -142,21 +144,61 @@ func (s *Scn) HostileClass() string {
 	if n == 0 {
 		return "empty:" + s.Fin
 	}
+	if s.Fam != "typed" && s.Fam != "ad" && s.Fam != "hs" {
+		return s.Items[n-1].label()
+	}
+	isAdEp := s.Fam == "ad" || s.Ep == "SrvFirst" || s.Ep == "CliServerAd"
+	best, bestRank := "", 0
+	consider := func(rank int, lab string) {
+		if rank >= bestRank && rank > 0 {
+			best, bestRank = lab, rank
+		}
+	}
+	hostileNum := func(c string) bool {
+		return c == "i32max" || c == "two62" || c == "neg1" || c == "minInt"
+	}
+	for i, it := range s.Items {
+		switch it.K {
+		case "str":
+			afterMarker := i > 0 && s.Items[i-1].K == "str" && s.Items[i-1].C == "marker" && it.C != "type" && it.C != "badtype"
+			switch {
+			case it.P == "neg1" || it.P == "minInt":
+				consider(10, "strlen:"+it.P)
+			case afterMarker && (it.N == "big" || it.P == "i32max" || it.P == "two62" || it.P == "over"):
+				consider(9, "secret:"+it.label())
+			case it.P == "i32max" || it.P == "two62" || it.P == "over":
+				consider(6, "strlen:"+it.P)
+			case it.N == "big" || it.N == "capP1" || it.N == "cap":
+				consider(5, it.label())
+			case it.P == "short" || it.P == "zero":
+				consider(3, "strlen:"+it.P)
+			case it.T == "F":
+				consider(2, it.label())
+			}
+		case "int":
+			if hostileNum(it.C) {
+				if isAdEp {
+					consider(8, "count="+it.C)
+				} else {
+					consider(8, "len="+it.C)
+				}
+			}
+		}
+	}
+	if best != "" {
+		return best
+	}
 	last := s.Items[n-1]
 	lab := last.label()
 	if last.K == "bytes" && n >= 2 {
 		lab = "len=" + s.Items[n-2].C + "," + lab
 	}
-	if s.Fam == "ad" || (s.Fam == "hs" && (s.Ep == "SrvFirst" || s.Ep == "CliServerAd")) {
-		// the count governs a ClassAd
+	if isAdEp {
 		for _, it := range s.Items {
 			if it.K == "int" && it.C != "auth" && it.C != "other" {
 				lab = "count=" + it.C + "," + lab
 				break
 			}
-		}
-		if n >= 2 && s.Items[n-2].C == "marker" {
-			lab += ",after-marker"
 		}
 	}
 	return lab
